@@ -158,3 +158,209 @@ def select_arms(t):
     a = t.args[1]
     return ('where', a[0], a[1], a[2])
   return None
+
+
+class Decider:
+  """Truth assignment for configuration atoms.
+
+  truth:  {'frequent_directions': True, ...}   truthiness of cfg/param symbols
+  cmps:   {('weight_decay', '!=', 0): True, ('padding_start', 'is', None): False, ...}
+  calls:  {('callable', 'learning_rate'): False, ('_skip_preconditioning',): True}
+  """
+
+  def __init__(self, truth=None, cmps=None, calls=None, extra=None):
+    self.truth = dict(truth or {})
+    self.cmps = dict(cmps or {})
+    self.calls = dict(calls or {})
+    self.extra = extra
+    self.undecided = []
+
+  def _name(self, t):
+    if t.op == 'sym':
+      return str(t.args[-1])
+    if t.op == 'attr':
+      return path_str(t)
+    return None
+
+  def __call__(self, c):
+    r = self._decide(c)
+    if r is None and self.extra is not None:
+      r = self.extra(c)
+    if r is None:
+      self.undecided.append(c)
+    return r
+
+  def _decide(self, c):
+    nm = self._name(c)
+    if nm is not None and nm in self.truth:
+      return self.truth[nm]
+    if c.op == 'cmp':
+      o, a, b = c.args
+      na = self._name(a)
+      if na is not None and (b.op in ('const', 'enum', 'ext')):
+        bv = cval(b) if b.op == 'const' else (b.args[1] if b.op == 'enum' else b.args[0])
+        key = (na, o, bv)
+        if key in self.cmps:
+          return self.cmps[key]
+        neg_ops = {'==': '!=', '!=': '==', 'is': 'is not', 'is not': 'is', '<': '>=', '>=': '<', '>': '<=', '<=': '>'}
+        k2 = (na, neg_ops.get(o), bv)
+        if k2 in self.cmps:
+          return not self.cmps[k2]
+      nb = self._name(b)
+      if nb is not None and a.op == 'const':
+        flip = {'<': '>', '>': '<', '<=': '>=', '>=': '<=', '==': '==', '!=': '!='}.get(o)
+        if flip:
+          return self._decide(T('cmp', flip, b, a))
+    if c.op == 'call':
+      f, args, _ = c.args
+      if f.op == 'builtin' and args:
+        n0 = self._name(args[0])
+        key = (f.args[0], n0)
+        if key in self.calls:
+          return self.calls[key]
+      if f.op == 'fn':
+        key = (f.args[0].split('.')[-1],)
+        if key in self.calls:
+          return self.calls[key]
+    return None
+
+
+def econd_summary(ev, bound, rec):
+  """efficient_cond(predicate, compute_fn, init_state, *args, **kwargs) ==
+  cond(predicate, tuple(compute_fn(*args, **kwargs)), tuple(init_state)).
+  (The body of efficient_cond is checked against this summary by rule EC.)"""
+  pred = bound.get('predicate')
+  fn = bound.get('compute_fn')
+  init = bound.get('init_state')
+  args = bound.get('args')
+  kwargs = bound.get('kwargs')
+  if pred is None or fn is None or init is None:
+    return None
+  a = list(args.args) if args is not None and args.op == 'tuple' else []
+  kw = {}
+  if kwargs is not None and kwargs.op == 'dict':
+    kw = {cval(k): v for k, v in kwargs.args if is_const(k)}
+  ev.path.append(T('condarm', pred, True))
+  try:
+    res = ev.call(fn, a, kw, None, None)
+  finally:
+    ev.path.pop()
+  if res.op == 'list':
+    res = T('tuple', *res.args)
+  if init.op == 'list':
+    init = T('tuple', *init.args)
+  return T('cond', pred, res, init)
+
+
+def check_efficient_cond(ctx, rule):
+  """efficient_cond's body implements cond(predicate, compute_fn(), init_state)."""
+  m = ctx.model
+  fi = m.func('distributed_shampoo', 'efficient_cond')
+  ctx.analysed(fi)
+  ev = evaluator(m)
+  P = param('efficient_cond', 'predicate')
+  F = param('efficient_cond', 'compute_fn')
+  I = T('list', sym('spec', 'init0'), sym('spec', 'init1'))
+  r = ev.run(fi, args={'predicate': P, 'compute_fn': F, 'init_state': I,
+                       'args': T('tuple'), 'kwargs': T('dict')})
+  ok = False
+  why = 'unrecognised shape'
+  # tuple(results[1:]) where results = while(init=(pred, *init), body=(False, *compute()), cond=state[0])
+  t = r
+  if t.op == 'call' and t.args[0].op == 'builtin' and t.args[0].args[0] == 'tuple':
+    t = t.args[1][0]
+  if t.op == 'sub' and t.args[0].op == 'while' and t.args[1].op == 'slice' and is_const(t.args[1].args[0], 1) \
+      and is_const(t.args[1].args[1], None):
+    w = t.args[0]
+    wid, init, body, cnd = w.args
+    if init.op == 'call':
+      init = init.args[1][0]
+    if body.op == 'call':
+      body = body.args[1][0]
+    st = T('wstate', wid)
+    ok_init = init.op in ('list', 'tuple') and len(init.args) == 3 and init.args[0] is P and \
+        init.args[1] is I.args[0] and init.args[2] is I.args[1]
+    if body.op == 'bin' and body.args[0] == '+' and body.args[1].op == 'list':
+      rest = body.args[2]
+      if rest.op == 'call' and rest.args[0].op == 'builtin' and rest.args[0].args[0] in ('list', 'tuple'):
+        rest = rest.args[1][0]
+      body = T('list', *(body.args[1].args + (T('star', rest, rest),)))
+    ok_body = body.op in ('list', 'tuple') and len(body.args) == 2 and is_const(body.args[0], False) and \
+        body.args[1].op == 'star' and body.args[1].args[0].op == 'call' and body.args[1].args[0].args[0] is F
+    ok_cond = cnd.op == 'sub' and cnd.args[0] is st and is_const(cnd.args[1], 0)
+    ok = ok_init and ok_body and ok_cond
+    why = f'init ok={ok_init} body ok={ok_body} cond ok={ok_cond}'
+  ctx.ob(rule, fi.short, 'efficient_cond == cond(pred, compute(), init)', ok,
+         f'efficient_cond no longer implements "predicate ? compute_fn() : init_state" ({why})', ctx.loc(fi),
+         sample='while(state[0]) over (predicate, *init) with body (False, *compute())')
+  return ok
+
+
+def resimplify(ev, t, choose=None, memo=None):
+  """Rebuild t bottom-up re-applying projections (attr/sub/elem) after choosing
+  arms of `cond` nodes: choose(cond_term) -> True / False / None."""
+  if memo is None:
+    memo = {}
+
+  def rec_arg(a):
+    if isinstance(a, T):
+      return rec(a)
+    if isinstance(a, tuple):
+      return tuple(rec_arg(x) for x in a)
+    return a
+
+  def rec(x):
+    if x in memo:
+      return memo[x]
+    if x.op == 'cond' and choose is not None:
+      c = choose(x)
+      if c is not None:
+        r = rec(x.args[1] if c else x.args[2])
+        memo[x] = r
+        return r
+    args = tuple(rec_arg(a) for a in x.args)
+    if x.op == 'attr':
+      r = ev.attr(args[0], args[1])
+    elif x.op == 'sub':
+      r = ev.subscript(args[0], args[1])
+    elif x.op == 'elem':
+      r = ev.elem_of(args[0])
+    elif x.op == 'ite':
+      from .terms import ite as _ite
+      r = _ite(args[0], args[1], args[2])
+    elif all(n is o for n, o in zip(args, x.args)):
+      r = x
+    else:
+      r = T(x.op, *args)
+    memo[x] = r
+    return r
+  return rec(t)
+
+
+def list_elements(t):
+  """Element terms that can be stored in list-valued term t (through ite, star, slices, cond)."""
+  out = []
+  seen = set()
+
+  def rec(x):
+    if x in seen:
+      return
+    seen.add(x)
+    if x.op == 'ite':
+      rec(x.args[1])
+      rec(x.args[2])
+    elif x.op in ('list', 'tuple'):
+      for e in x.args:
+        if e.op == 'star':
+          out.append(e.args[0])
+        else:
+          out.append(e)
+    elif x.op in ('loop',):
+      rec(x.args[2])
+      rec(x.args[3])
+    elif x.op == 'phi':
+      rec(x.args[2])
+    else:
+      out.append(T('elem', x))
+  rec(t)
+  return out
